@@ -193,4 +193,220 @@ def speakerPositionToXml : SpeakerPosition → List Xml
   | .cartesian x y z sel =>
     dumpBound "X" x sel.horizontal ++ dumpBound "Y" y none ++ dumpBound "Z" z sel.vertical
 
+/-! ### Objects position (`parse_objects_position` / `object_position_to_xml`) -/
+
+inductive ObjectPosition where
+  | polar (azimuth elevation distance : Int) (sel : ScreenEdgeLock)
+  | cartesian (x y z : Int) (sel : ScreenEdgeLock)
+  deriving DecidableEq, Repr
+
+structure ObjPosState where
+  /-- `position[coordinate]` -/
+  position : Dict Int
+  sel : ScreenEdgeLock
+
+/-- one iteration of the loop in `parse_objects_position` (a `bound` attribute is ignored here) -/
+def objectStep (st : ObjPosState) (e : Xml) : Option ObjPosState :=
+  match attr? e "coordinate" with
+  | none => none                                                -- "missing coordinate attr"
+  | some coordinate =>
+    if st.position.any (·.1 == coordinate) then none             -- "duplicate … coordinates specified"
+    else match loadsNum e.text with
+    | none => none
+    | some v =>
+      let position := st.position ++ [(coordinate, v)]
+      match attr? e "screenEdgeLock" with
+      | none => some ⟨position, st.sel⟩
+      | some s =>
+        if (coordinate = "azimuth" ∨ coordinate = "X") ∧ (s = "left" ∨ s = "right") then
+          some ⟨position, { st.sel with horizontal := some s }⟩
+        else if (coordinate = "elevation" ∨ coordinate = "Z") ∧ (s = "top" ∨ s = "bottom") then
+          some ⟨position, { st.sel with vertical := some s }⟩
+        else none
+
+/-- the end of `parse_objects_position`, including the range validators of `ObjectPolarPosition`
+(azimuth in [-180, 180], elevation in [-90, 90], distance ≥ 0) -/
+def objectFinish (st : ObjPosState) : Option ObjectPosition :=
+  let p := st.position
+  if sameKeys p ["azimuth", "elevation"] || sameKeys p ["azimuth", "elevation", "distance"] then do
+    let az ← p.get? "azimuth"
+    let el ← p.get? "elevation"
+    let di := (p.get? "distance").getD 100000
+    if -18000000 ≤ az ∧ az ≤ 18000000 ∧ -9000000 ≤ el ∧ el ≤ 9000000 ∧ 0 ≤ di then
+      some (.polar az el di st.sel) else none
+  else if sameKeys p ["X", "Y"] || sameKeys p ["X", "Y", "Z"] then do
+    let x ← p.get? "X"
+    let y ← p.get? "Y"
+    some (.cartesian x y ((p.get? "Z").getD 0) st.sel)
+  else none
+
+/-- `parse_objects_position` on the `position` elements in visiting order -/
+def parseObjectPosition (es : List Xml) : Option ObjectPosition :=
+  (es.foldlM objectStep ⟨[], ⟨none, none⟩⟩).bind objectFinish
+
+/-- `dump_coordinate` -/
+def dumpCoordinate (coordinate : String) (v : Int) (sel : Option String) : Xml :=
+  elem "position" (("coordinate", coordinate) :: lockAttrs sel) (dumpsNum v)
+
+/-- `object_position_to_xml` -/
+def objectPositionToXml : ObjectPosition → List Xml
+  | .polar az el di sel =>
+    [dumpCoordinate "azimuth" az sel.horizontal, dumpCoordinate "elevation" el sel.vertical] ++
+    (if di ≠ 100000 then [dumpCoordinate "distance" di none] else [])
+  | .cartesian x y z sel =>
+    [dumpCoordinate "X" x sel.horizontal, dumpCoordinate "Y" y none] ++
+    (if z ≠ 0 ∨ sel.vertical ≠ none then [dumpCoordinate "Z" z sel.vertical] else [])
+
+/-! ### gain (`handle_gain_element_v1/v2`, `gain_to_xml`, `optional_gain_to_xml`, `handle_gain_attribute_v1/v2`,
+`gain_attribute_to_xml`) -/
+
+/-- result of `parse_gain`: a linear gain on the grid, or a gain given in dB (`10 ** (g / 20)`, a float that
+is not on the grid and is kept symbolic) -/
+inductive Gain where
+  | linear (k : Int)
+  | dB (k : Int)
+  deriving DecidableEq, Repr
+
+/-- `parse_gain(gain_str, gainUnit)` -/
+def parseGain (s : String) (unit : String) : Option Gain :=
+  match loadsNum s with
+  | none => none
+  | some k => if unit = "linear" then some (.linear k) else if unit = "dB" then some (.dB k) else none
+
+/-- the `gain` sub-element handlers; `present` = `"gain" in kwargs` -/
+def handleGainElement (v2 : Bool) (present : Bool) (e : Xml) : Option Gain :=
+  if present then none                                        -- "multiple gain elements found"
+  else if v2 then parseGain e.text ((attr? e "gainUnit").getD "linear")
+  else if (attr? e "gainUnit").isSome then none               -- "gainUnit is a BS.2076-2 feature"
+  else (loadsNum e.text).map .linear
+
+/-- all `gain` children of an element whose constructor default is 1.0 -/
+def parseGainElements (v2 : Bool) (es : List Xml) : Option (Option Gain) :=
+  es.foldlM (fun acc e => (handleGainElement v2 acc.isSome e).map some) none
+
+/-- `gain_to_xml`: elided when it is 1.0 -/
+def gainToXml (k : Int) : List Xml := if k ≠ 100000 then [elem "gain" [] (dumpsNum k)] else []
+
+/-- `optional_gain_to_xml` (alternativeValueSet): elided when `None` -/
+def optionalGainToXml : Option Int → List Xml
+  | some k => [elem "gain" [] (dumpsNum k)]
+  | none => []
+
+/-- `handle_gain_attribute_v1/v2` on the element's attributes: `none` = raises, `some none` = no gain -/
+def handleGainAttribute (v2 : Bool) (e : Xml) : Option (Option Gain) :=
+  if v2 then
+    match attr? e "gain" with
+    | some g => (parseGain g ((attr? e "gainUnit").getD "linear")).map some
+    | none => if (attr? e "gainUnit").isSome then none else some none
+  else
+    if (attr? e "gainUnit").isSome then none
+    else match attr? e "gain" with
+      | some g => (loadsNum g).map fun k => some (.linear k)
+      | none => some none
+
+/-- `gain_attribute_to_xml` -/
+def gainAttributeToXml : Option Int → List (String × String)
+  | some k => [("gain", dumpsNum k)]
+  | none => []
+
+/-! ### channelLock -/
+
+structure ChannelLock where
+  maxDistance : Option Int
+  deriving DecidableEq, Repr
+
+/-- `handle_channel_lock`: `none` = raises, `some none` = text `0` (nothing stored),
+`some (some c)` = stored in `kwargs["channelLock"]` -/
+def handleChannelLock (e : Xml) : Option (Option ChannelLock) :=
+  if e.text = "0" then some none
+  else if e.text = "1" then
+    match attr? e "maxDistance" with
+    | some s => (loadsNum s).map fun k => some ⟨some k⟩
+    | none => some (some ⟨none⟩)
+  else none
+
+/-- all `channelLock` children (a later `1` replaces an earlier one, a `0` changes nothing) -/
+def parseChannelLock (es : List Xml) : Option (Option ChannelLock) :=
+  es.foldlM (fun acc e => (handleChannelLock e).map fun r => match r with | some c => some c | none => acc) none
+
+/-- `channel_lock_to_xml` -/
+def channelLockToXml : Option ChannelLock → List Xml
+  | some c => [elem "channelLock"
+      (match c.maxDistance with | some k => [("maxDistance", dumpsNum k)] | none => []) "1"]
+  | none => []
+
+/-! ### objectDivergence -/
+
+structure ObjectDivergence where
+  value : Int
+  azimuthRange : Option Int
+  positionRange : Option Int
+  deriving DecidableEq, Repr
+
+def optNum (e : Xml) (k : String) : Option (Option Int) :=
+  match attr? e k with
+  | some s => (loadsNum s).map some
+  | none => some none
+
+/-- `handle_divergence` -/
+def handleDivergence (e : Xml) : Option ObjectDivergence := do
+  let v ← loadsNum e.text
+  let a ← optNum e "azimuthRange"
+  let p ← optNum e "positionRange"
+  some ⟨v, a, p⟩
+
+def parseDivergence (es : List Xml) : Option (Option ObjectDivergence) :=
+  es.foldlM (fun _ e => (handleDivergence e).map some) none
+
+/-- `divergence_to_xml` -/
+def divergenceToXml : Option ObjectDivergence → List Xml
+  | some d => [elem "objectDivergence"
+      ((match d.azimuthRange with | some k => [("azimuthRange", dumpsNum k)] | none => []) ++
+       (match d.positionRange with | some k => [("positionRange", dumpsNum k)] | none => [])) (dumpsNum d.value)]
+  | none => []
+
+/-! ### zoneExclusion -/
+
+inductive Zone where
+  | cartesian (minX minY minZ maxX maxY maxZ : Int)
+  | polar (minElevation maxElevation minAzimuth maxAzimuth : Int)
+  deriving DecidableEq, Repr
+
+def cartKeys : List String := ["minX", "minY", "minZ", "maxX", "maxY", "maxZ"]
+def polarKeys : List String := ["minAzimuth", "maxAzimuth", "minElevation", "maxElevation"]
+
+def hasKey (e : Xml) (k : String) : Bool := e.attrs.any (·.1 == k)
+
+/-- `parse_zone` (other attributes are ignored) -/
+def parseZone (e : Xml) : Option Zone :=
+  let num (k : String) : Option Int := (attr? e k).bind loadsNum
+  if cartKeys.all (hasKey e) && !polarKeys.any (hasKey e) then do
+    some (.cartesian (← num "minX") (← num "minY") (← num "minZ") (← num "maxX") (← num "maxY") (← num "maxZ"))
+  else if polarKeys.all (hasKey e) && !cartKeys.any (hasKey e) then do
+    some (.polar (← num "minElevation") (← num "maxElevation") (← num "minAzimuth") (← num "maxAzimuth"))
+  else none
+
+/-- `zone_to_xml` -/
+def zoneToXml : Zone → Xml
+  | .cartesian a b c d e f =>
+    elem "zone" [("minX", dumpsNum a), ("minY", dumpsNum b), ("minZ", dumpsNum c), ("maxX", dumpsNum d),
+      ("maxY", dumpsNum e), ("maxZ", dumpsNum f)] ""
+  | .polar minEl maxEl minAz maxAz =>
+    elem "zone" [("minAzimuth", dumpsNum minAz), ("maxAzimuth", dumpsNum maxAz), ("minElevation", dumpsNum minEl),
+      ("maxElevation", dumpsNum maxEl)] ""
+
+/-- the inner `ElementParser` of `zoneExclusion`: every child named `zone` (any listed namespace) is parsed
+and appended; other children are ignored -/
+def parseZoneExclusionElement (e : Xml) : Option (List Zone) :=
+  (e.children.filter fun c => matchesName c.tag "zone").mapM parseZone
+
+/-- all `zoneExclusion` children of a block format (a later one replaces an earlier one); `none` inside =
+absent (constructor default `[]`) -/
+def parseZoneExclusion (es : List Xml) : Option (Option (List Zone)) :=
+  es.foldlM (fun _ e => (parseZoneExclusionElement e).map some) none
+
+/-- `zone_exclusion_handler.as_handler("zoneExclusion", default=[]).to_xml` -/
+def zoneExclusionToXml (zs : List Zone) : List Xml :=
+  if zs ≠ [] then [.node (outName "zoneExclusion") [] (zs.map zoneToXml) ""] else []
+
 end Earverif.XmlCustom
